@@ -645,7 +645,7 @@ def gen_s5_namespace(rng):
                                     'expandArguments': 'none'}}]}
 
 
-def s5_inprocess(ctx):
+def s5_inprocess(ctx, only=None):
     """the loop of ComponentFlowIR.convert_outputreferences_to_datareferences on the real code (through
     namespace_to_flowir) vs Det.Model.replace_refs_sorted; the set of reference strings and their replacements are
     recomputed here with the real OutputReference.from_str / .split"""
@@ -672,6 +672,8 @@ def s5_inprocess(ctx):
         docs.append(gen_s5_namespace(rng))
     for _ in range(5 if ctx.tier == 'quick' else 40):
         docs.append(gen_dsl_pkg(rng)['doc'])
+    if only is not None:
+        docs = only
     terms, descr = [], []
     dsl.ComponentFlowIR.convert_outputreferences_to_datareferences = wrapper
     try:
@@ -709,8 +711,8 @@ def s5_inprocess(ctx):
                 ctx.count('s5:refs=%d%s' % (min(len(mapping), 4), ':nested' if nested else ''))
                 terms.append(cpair(cpair(clist(sorted(mapping.items()), lambda kv: cpair(cstr(kv[0]), cstr(kv[1]))),
                                          cstr(rec['before'])), cstr(rec['after'])))
-                descr.append({'step': rec['step'], 'arguments_before': rec['before'], 'replacements': sorted(mapping.items()),
-                              'impl_arguments': rec['after']})
+                descr.append({'doc': doc, 'step': rec['step'], 'arguments_before': rec['before'],
+                              'replacements': sorted(mapping.items()), 'impl_arguments': rec['after']})
                 if nested:
                     ctx.sample({'s5_arguments_before': rec['before'], 'replacements': sorted(mapping.items()),
                                 'arguments_after': rec['after']}, limit=2)
@@ -805,7 +807,7 @@ def _naming_of(dsl, doc):
     return (names, envs, [x[2] for x in seen]), 'converted'
 
 
-def naming_inprocess(ctx):
+def naming_inprocess(ctx, only=None):
     import experiment.model.frontends.dsl as dsl
     global experiment
     import experiment.model.errors
@@ -815,15 +817,19 @@ def naming_inprocess(ctx):
         docs.append(gen_naming_namespace(rng))
     for _ in range(6 if ctx.tier == 'quick' else 40):
         docs.append(gen_dsl_pkg(rng)['doc'])
+    if only is not None:
+        docs = only
     nterms, ndescr, eterms, edescr = [], [], [], []
     for doc in docs:
         res, outcome = _naming_of(dsl, doc)
         ctx.count('naming:' + outcome)
         # the predicate: the same names and environment names for a key-permuted but equal document
-        res2, outcome2 = _naming_of(dsl, permute_keys(rng, copy.deepcopy(doc)))
-        if (res is None) != (res2 is None) or (res is not None and (res[0], res[2]) != (res2[0], res2[2])):
-            ctx.fail({'doc': doc, 'a': res and [res[0], res[2]], 'b': res2 and [res2[0], res2[2]]},
-                     'component / environment names differ for a key-permuted but equal DSL document', [])
+        for _ in range(1 if only is None else 8):
+            res2, outcome2 = _naming_of(dsl, permute_keys(rng, copy.deepcopy(doc)))
+            if (res is None) != (res2 is None) or (res is not None and (res[0], res[2]) != (res2[0], res2[2])):
+                ctx.fail({'doc': doc, 'a': res and [res[0], res[2]], 'b': res2 and [res2[0], res2[2]]},
+                         'component / environment names differ for a key-permuted but equal DSL document', [])
+                break
         wfs = [(w['signature']['name'], list(w['steps'].items()), [x['target'][1:-1] for x in w['execute']])
                for w in doc.get('workflows', [])]
         comps = [c['signature']['name'] for c in doc.get('components', [])]
@@ -1145,6 +1151,15 @@ def replay(ctx, path):
     c = d.get('case') or d.get('first', {}).get('case') or {}
     if isinstance(c, dict) and 'case' in c:
         c = c['case']
+    if isinstance(c, dict) and c.get('kind') is None and isinstance(c.get('doc'), dict):
+        # an in-process DSL case (S5 reference rewriting / S6 naming)
+        naming_inprocess(ctx, [c['doc']])
+        s5_inprocess(ctx, [c['doc']])
+        for f in ctx.failures:
+            print('REPRODUCED: %s: %s' % (f['what'], json.dumps(f['case'])[:600]))
+        for f in ctx.disagreements:
+            print('DISAGREEMENT: %s' % (json.dumps(f, default=str)[:600],))
+        return 1 if (ctx.failures or ctx.disagreements) else 0
     if not isinstance(c, dict) or c.get('kind') not in ('vars', 'pkg'):
         if isinstance(c, dict) and 'old' in c and 'new' in c:
             import experiment.model.frontends.flowir as F
